@@ -239,7 +239,18 @@ pub fn run_acc_ops(case: &Value) -> Value {
             }
             "extend" => {
                 let es: Vec<Error> = op["bs"].as_array().unwrap().iter().map(ev).collect();
-                acc.extend(es);
+                // the same errors through iterators with different size hints
+                match op["via"].as_str().unwrap_or("vec") {
+                    "filter" => acc.extend(es.into_iter().filter(|_| true)),
+                    "flat_map" => acc.extend(es.into_iter().flat_map(|e| vec![e])),
+                    "results" => {
+                        let rs: Vec<darling::Result<u8>> = es.into_iter().map(Err).collect();
+                        acc.extend(rs.into_iter().filter_map(|r| r.err()))
+                    }
+                    "error_iter" if es.len() >= 2 => acc.extend(Error::multiple(es)),
+                    "chain" => acc.extend(std::iter::empty().chain(es)),
+                    _ => acc.extend(es),
+                }
                 state = Some(acc);
                 json!({"t": "unit"})
             }
